@@ -36,7 +36,7 @@ def base_ops(F, bodies):
                 if meth not in NEUTRAL:
                     out.setdefault(meth, []).append((m.group(0), c.span))
                 continue
-            m = re.search(r"<(i32|i128|u8|f64) as core::ops::(?:arith|bit)::(\w+)", nm)
+            m = re.search(r"<&*(i32|i128|u8|f64) as core::ops::(?:arith|bit)::(\w+)", nm)
             if m and m.group(2) in EXPECTED:
                 out.setdefault(EXPECTED[m.group(2)], []).append((m.group(0) + ">", c.span))
             elif m and m.group(2).endswith("Assign") and m.group(2)[:-6] in EXPECTED:
